@@ -65,6 +65,12 @@ def states_for(direction: str) -> list[str]:
     return [s for s in STATES if s != 'UPLOADING']
 
 
+#: (seed, i) of kind=live histories that exposed a defect
+REGRESSION_LIVE = [
+    (1, 18343),     # 5b5e98b: negotiation task created while an abort was in progress ignored the refused initialize()
+]
+
+
 def cases(tier: str, seed: int) -> list[dict]:
     out = []
     # matrix: batches per (direction, state)
@@ -82,6 +88,9 @@ def cases(tier: str, seed: int) -> list[dict]:
     n_live = 240 if tier == 'quick' else 20000
     for i in range(n_live):
         out.append({'kind': 'live', 'seed': seed, 'i': i})
+    # witnesses of earlier findings, kept with the world they were found in
+    for rs, ri in REGRESSION_LIVE:
+        out.append({'kind': 'live', 'seed': rs, 'i': ri, 'regression': True})
     return out
 
 
